@@ -15,8 +15,8 @@ import (
 )
 
 type sceneDesc struct {
-	vram                                      [0x2000]byte
-	oam                                       [0xa0]byte
+	vram                                    [0x2000]byte
+	oam                                     [0xa0]byte
 	lcdc, scx, scy, wx, wy, bgp, obp0, obp1 uint8
 }
 
